@@ -639,11 +639,18 @@ class RootPath(Path):
         return str(self.path)
 
     def evaluate(self, context: FilterContext) -> object:
-        return NodeList(self.path.finditer(context.root))
+        return NodeList(
+            self.path.finditer(context.root, filter_context=context.extra_context)
+        )
 
     async def evaluate_async(self, context: FilterContext) -> object:
         return NodeList(
-            [match async for match in await self.path.finditer_async(context.root)]
+            [
+                match
+                async for match in await self.path.finditer_async(
+                    context.root, filter_context=context.extra_context
+                )
+            ]
         )
 
 
@@ -662,16 +669,33 @@ class FilterContextPath(Path):
         env = self.path.env
         return env.filter_context_token + str(self.path)[len(env.root_token) :]
 
+    def _root_match(self, context: FilterContext) -> JSONPathMatch:
+        # The query starts at the extra filter context data, but filters
+        # nested in it keep the root node and filter context of the query it
+        # is embedded in.
+        return self.path.env.match_class(
+            filter_context=context.extra_context,
+            obj=context.extra_context,
+            parent=None,
+            path=self.path.env.root_token,
+            parts=(),
+            root=context.root,
+        )
+
     def evaluate(self, context: FilterContext) -> object:
-        return NodeList(self.path.finditer(context.extra_context))
+        matches: Iterable[JSONPathMatch] = [self._root_match(context)]
+        for selector in self.path.selectors:
+            matches = selector.resolve(matches)
+        return NodeList(matches)
 
     async def evaluate_async(self, context: FilterContext) -> object:
-        return NodeList(
-            [
-                match
-                async for match in await self.path.finditer_async(context.extra_context)
-            ]
-        )
+        async def root_iter() -> AsyncIterable[JSONPathMatch]:
+            yield self._root_match(context)
+
+        matches: AsyncIterable[JSONPathMatch] = root_iter()
+        for selector in self.path.selectors:
+            matches = selector.resolve_async(matches)
+        return NodeList([match async for match in matches])
 
 
 class FunctionExtension(FilterExpression):
